@@ -142,13 +142,13 @@ def _gen_churn(rng, tier):
     long = tier != "quick"
     factor = rng.choice([2, 4, 8, 16, 1520])
     nprio = rng.choice([1, 3, 10, 50])
-    waves = rng.choice([1, 1, 2] if not long else [1, 2, 3, 4])
+    waves = rng.choice([1, 1, 2] if not long else [1, 2, 3])
     ops, live, nxt = [], [], 0
 
     def rank():
         return rng.randrange(nprio) - 3
     for w in range(waves):
-        grow = rng.randint(70, 220) if not long else rng.randint(100, 600)
+        grow = rng.randint(70, 220) if not long else rng.randint(100, 350)      # Coq cost is cubic in the length
         for _ in range(grow):
             ops.append(["add", nxt, rank(), rng.randrange(6)])
             live.append(nxt)
@@ -235,7 +235,7 @@ def _gen_b(rng, tier):
 def generate(rng, tier, n):
     nbig = 0 if n < 1000 else (2 if tier == "quick" else 12)
     nlarge = n // 400 if tier == "quick" else n // 200
-    nchurn = n // 160 if tier == "quick" else n // 250
+    nchurn = n // 160 if tier == "quick" else n // 600
     # the 200 KB cases first so that their coqc jobs overlap with all the others; then a block of small cases (a
     # defect that shows on small histories is then reported and shrunk from those, cheaply); then the long ones
     nsmall = n - nbig - nlarge - nchurn
